@@ -448,6 +448,11 @@ pub struct RunCfg {
     /// user callbacks without gates run (and panic) synchronously inside the call that is supposed to
     /// only BUILD the future; `World::new` panics before returning its future
     pub eager: bool,
+    /// a custom `retry_options` closure (public builder API): scenarios tagged `cr1` / `cr2` START with
+    /// `Retries { current: 1, left: 0 }` / `{ current: 2, left: 1 }` (e.g. 1-based attempt numbering); all others
+    /// resolve as by default. Only used by the monitor-only family `sched.custom` (the scheduler MODEL resolves
+    /// retry options from tags, so its acceptor classes are not compared there).
+    pub custom_retry: bool,
 }
 
 impl Default for RunCfg {
@@ -468,6 +473,7 @@ impl Default for RunCfg {
             max_polls: 2_000_000,
             gate_delay_us: 0,
             eager: false,
+            custom_retry: false,
             env_script: vec![],
         }
     }
@@ -556,6 +562,14 @@ pub fn run(
     b = b.retries(cfg.builder_retries).retry_after(cfg.builder_after);
     if cfg.builder_ff {
         b = b.fail_fast();
+    }
+    if cfg.custom_retry {
+        b = b.retry_options(|f, r, s, cli| {
+            let mk = |current, left| runner::basic::RetryOptions { retries: cucumber::event::Retries { current, left }, after: None };
+            if s.tags.iter().any(|t| t == "cr1") { Some(mk(1, 0)) }
+            else if s.tags.iter().any(|t| t == "cr2") { Some(mk(2, 1)) }
+            else { runner::basic::RetryOptions::parse_from_tags(f, r, s, cli) }
+        });
     }
     let cli = runner::basic::Cli {
         concurrency: cfg.cli_conc,
